@@ -139,6 +139,9 @@ func DemosAppDir() (string, bool) {
 
 // NetTimeout 返回网络超时设置
 func NetTimeout() time.Duration {
+	if verifNetTimeout > 0 {
+		return verifNetTimeout
+	}
 	return time.Second * 45
 }
 
